@@ -6,6 +6,7 @@ import (
 	"go/constant"
 	"go/types"
 	stdhtml "html"
+	"strconv"
 	"strings"
 
 	"golang.org/x/image/colornames"
@@ -304,6 +305,17 @@ func xmlUnescape(s string) string {
 	if strings.HasPrefix(s, "&") && strings.HasSuffix(s, ";") {
 		if v, ok := ref.XMLPredefinedEntities[s[1:len(s)-1]]; ok {
 			return v
+		}
+		// numeric character reference
+		body := s[1 : len(s)-1]
+		if strings.HasPrefix(body, "#x") || strings.HasPrefix(body, "#X") {
+			if n, err := strconv.ParseInt(body[2:], 16, 32); err == nil {
+				return string(rune(n))
+			}
+		} else if strings.HasPrefix(body, "#") {
+			if n, err := strconv.ParseInt(body[1:], 10, 32); err == nil {
+				return string(rune(n))
+			}
 		}
 	}
 	return s
